@@ -6,6 +6,7 @@ EXTENDS JID, Json
 CONSTANTS ParseLen,      \* Parse vectors: all strings over Core up to this length
           SubLen,        \* ... and all strings over SubSyms up to this length
 
+          IPLen,         \* IP-literal family: all strings over IPAlpha up to this length that hold an address text
           PartLen        \* New vectors: all triples of parts up to this length over TripleSyms
 
 LongParts == {<<L1022>>, <<L1023>>, <<L1024>>, <<L1022, a>>, <<a, L1022>>, <<L1022, a, a>>, <<L1022, EA>>,
@@ -13,6 +14,17 @@ LongParts == {<<L1022>>, <<L1023>>, <<L1024>>, <<L1022, a>>, <<a, L1022>>, <<L10
               <<a, DOT, L1022>>, <<L1022, DOT, a>>}
 LongStrs == {Assemble(p, <<a>>, <<>>) : p \in LongParts} \cup {Assemble(<<>>, p, <<>>) : p \in LongParts}
             \cup {Assemble(<<>>, <<a>>, p) : p \in LongParts} \cup {Assemble(p, p, p) : p \in LongParts}
+
+(* IP-literal family: the text of an IPv6 address with / without brackets, with / without a zone   *)
+(* introduced by "%" whose characters include the separators - a domainpart must never contain    *)
+(* "/" or "@" however the literal was recognised (C11_PartsValid, C11_SplitRule, C11_Idempotent)  *)
+IPAlpha == {LB, V6B, PCT, a, SL, AT, RB}
+IPZones == StrsOf({a, SL, AT, RB}, 2)
+IPShaped == {lb \o <<V6B>> \o z \o rb : lb \in {<<>>, <<LB>>}, rb \in {<<>>, <<RB>>},
+                                        z \in {<<>>} \cup {<<PCT>> \o zz : zz \in IPZones}}
+IPStrs == IPShaped \cup {s \in StrsOf(IPAlpha, IPLen) : Has(s, {V6B})}
+IPParse == IPStrs \cup {<<a, AT>> \o s : s \in IPShaped} \cup {<<a, AT>> \o s \o <<SL, a>> : s \in IPShaped}
+IPTriples == {<< <<>>, s, <<>> >> : s \in IPStrs} \cup {<< <<a>>, s, <<a>> >> : s \in IPStrs}
 
 PVec(s) == LET sp == Split(s) c == ClsParse(s) IN
   [k |-> "parse", s |-> s, err |-> sp.err, l |-> sp.l, d |-> sp.d, r |-> sp.r, cls |-> c,
@@ -25,12 +37,12 @@ NVec(l, d, r) == LET c == ClsNew(l, d, r) IN
   [k |-> "new", l |-> l, d |-> d, r |-> r, cls |-> c, canon |-> IF c = "ok" THEN CanonNew(l, d, r) ELSE <<>>]
 Triples == (SmallParts \X SmallParts \X SmallParts) \cup (OneParts \X OneParts \X OneParts)
            \cup {<<p, <<a>>, <<>> >> : p \in LongParts} \cup {<< <<>>, p, <<>> >> : p \in LongParts}
-           \cup {<< <<>>, <<a>>, p>> : p \in LongParts}
+           \cup {<< <<>>, <<a>>, p>> : p \in LongParts} \cup IPTriples
 
 (* replacements: valid bases (raw parts), each role, every part up to length 2 over Core *)
 Bases == {<< <<a>>, <<a>>, <<a>> >>, << <<>>, <<a>>, <<>> >>, << <<UA>>, <<a, DOT, UA>>, <<>> >>,
           << <<>>, <<XN>>, <<UA, SP>> >>, << <<FW, CS>>, <<V6>>, <<FW, SL, AT>> >>, << <<LB>>, <<V4>>, <<CS>> >>}
-ReplParts == StrsOf(Core, 2) \cup LongParts
+ReplParts == StrsOf(Core, 2) \cup LongParts \cup IPStrs
 WVec(b, role, p) ==
   LET l == IF role = "l" THEN p ELSE NormL(b[1])
       d == IF role = "d" THEN p ELSE NormDStrict(b[2])
@@ -52,11 +64,11 @@ Pool == <<97, 65, 122, 48, 45, 46, 95, 126, 33, 39, 34, 38, 47, 58, 60, 62, 64, 
           4348, 43868, 119137, 2364, 2325, 3953, 3954, 12441, 12363, 776, 97, 46>>
 
 SubSyms == {a, UA, AT, SL, DOT, IDS, FW, CS, XN, SP}
-ParseSet == StrsOf(Core, ParseLen) \cup StrsOf(SubSyms, SubLen) \cup LongStrs
+ParseSet == StrsOf(Core, ParseLen) \cup StrsOf(SubSyms, SubLen) \cup LongStrs \cup IPParse
 ASSUME ndJsonSerialize("parse.ndjson", SetToSeq({PVec(s) : s \in ParseSet}))
 ASSUME ndJsonSerialize("new.ndjson", SetToSeq({NVec(t[1], t[2], t[3]) : t \in Triples}))
 ASSUME ndJsonSerialize("with.ndjson", SetToSeq({WVec(b, role, p) : b \in Bases, role \in {"l", "d", "r"}, p \in ReplParts}))
 ASSUME ndJsonSerialize("eq.ndjson", SetToSeq({EVec(s1, s2) : s1 \in EqStrs, s2 \in EqStrs}))
-ASSUME JsonSerialize("plan.json", [text |-> [s \in 1..22 |-> Text[s]], pool |-> Pool])
+ASSUME JsonSerialize("plan.json", [text |-> [s \in 1..24 |-> Text[s]], pool |-> Pool])
 ASSUME PrintT(<<"EMITTED", Cardinality(ParseSet), Cardinality(Triples), Cardinality(EqStrs)>>)
 =============================================================================
